@@ -3,7 +3,7 @@
    the same tracer in every order of the samples - up to the order of record fields (first seen) and internal counters.
    By induction on the nesting depth from: the leaf-level closed form (Coerce_proofs), nullability being orthogonal to tracing
    (Null_proofs), the projection theorem for records (Project_proofs) and the analogous fact for sequences. *)
-From Verif Require Import Tracer Coerce Coerce_proofs Builder_proofs Null_proofs Struct_proofs Project_proofs FlatRecords_proofs.
+From Verif Require Import Tracer Coerce Coerce_proofs Builder_proofs Null_proofs Struct_proofs Project_proofs FlatRecords_proofs Shapes_proofs.
 From Coq Require Import Permutation.
 Require Import Lia.
 Local Open Scope nat_scope.
@@ -20,7 +20,14 @@ Inductive teq : Tracer -> Tracer -> Prop :=
 | teq_mstruct n s s' fs fs' :
     (forall k, fget2 k fs = None <-> fget2 k fs' = None) ->
     (forall k t l t' l', fget2 k fs = Some (t, l) -> fget2 k fs' = Some (t', l') -> teq t t') ->
-    teq (TStruct n true s fs) (TStruct n true s' fs').
+    teq (TStruct n true s fs) (TStruct n true s' fs')
+| teq_map n k k' v v' : teq k k' -> teq v v' -> teq (TMap n k v) (TMap n k' v')
+| teq_tuple n fs fs' : length fs = length fs' -> (forall i, teq (nth_tracer fs i) (nth_tracer fs' i)) -> teq (TTuple n fs) (TTuple n fs')
+| teq_union n vs vs' : length vs = length vs' ->
+    (forall i, get_variant vs i = None <-> get_variant vs' i = None) ->
+    (forall i nm t nm' t', get_variant vs i = Some (nm, t) -> get_variant vs' i = Some (nm', t') -> nm = nm') ->
+    (forall i nm t nm' t', get_variant vs i = Some (nm, t) -> get_variant vs' i = Some (nm', t') -> teq t t') ->
+    teq (TUnion n vs) (TUnion n vs').
 
 Lemma teq_mark t t' : teq t t' -> teq (mark_nullable t) (mark_nullable t').
 Proof. intros H. destruct H; cbn [mark_nullable]; constructor; assumption. Qed.
@@ -85,12 +92,17 @@ Proof.
 Qed.
 
 (* containers *)
-Definition is_container (v : Value) : bool := match v with VSeq _ | VStruct _ | VMap _ => true | _ => false end.
+Definition is_container (v : Value) : bool :=
+  match v with
+  | VSeq _ | VStruct _ | VMap _ | VTuple _ | VTupleStruct _
+  | VUnitVariant _ _ | VNewtypeVariant _ _ _ | VTupleVariant _ _ _ | VStructVariant _ _ _ => true
+  | _ => false
+  end.
 Lemma container_on_ustate o d c u : is_container c = true -> ustate u = true -> trace o d c u = omk (t_nullable u) (trace o d c (TUnknown false)).
 Proof.
   intros Hc Hu. assert (E : trace o d c u = trace o d c (TUnknown (t_nullable u))).
   { destruct u as [n|[] []| | | | |]; cbn in Hu; try discriminate; [reflexivity|]. destruct c; try discriminate Hc; cbn [trace t_nullable];
-      unfold ensure_list, ensure_struct, ensure_map; reflexivity. }
+      unfold ensure_list, ensure_struct, ensure_map, ensure_tuple, ensure_union; reflexivity. }
   rewrite E. destruct (t_nullable u); cbn [omk]; [|reflexivity]. change (TUnknown true) with (mark_nullable (TUnknown false)). apply trace_mark.
 Qed.
 Lemma complex_mark t : is_complex (mark_nullable t) = is_complex t.
@@ -139,12 +151,27 @@ Proof.
            end; try discriminate; injection Htr as <-; reflexivity.
 Qed.
 
+Lemma ustep_complex o d w t t1 : ustep o d w t = Ok t1 -> is_complex t1 = true.
+Proof.
+  destruct w as [[idx name] p]. unfold ustep. intros H. apply bind_ok in H as (t0 & _ & H). destruct t0; try discriminate.
+  repeat match type of H with
+         | (if ?c then _ else _) = _ => destruct c
+         | match ?c with _ => _ end = _ => destruct c as [[? ?]|]
+         | bind _ _ = Ok _ => apply bind_ok in H as (? & _ & H)
+         end; try discriminate; injection H as <-; reflexivity.
+Qed.
 Lemma container_result_complex o d c t1 : is_container c = true -> trace o d c (TUnknown false) = Ok t1 -> is_complex t1 = true.
 Proof.
   intros Hc H. destruct c; try discriminate Hc.
   - rewrite trace_seq_eq in H. apply bind_ok in H as (t0 & _ & H). destruct t0; try discriminate. apply bind_ok in H as (x & _ & H). injection H as <-. reflexivity.
+  - rewrite trace_tuple_eq in H. apply bind_ok in H as (t0 & _ & H). destruct t0; try discriminate. apply bind_ok in H as (x & _ & H). injection H as <-. reflexivity.
+  - rewrite trace_tuple_struct, trace_tuple_eq in H. apply bind_ok in H as (t0 & _ & H). destruct t0; try discriminate. apply bind_ok in H as (x & _ & H). injection H as <-. reflexivity.
   - cbn [trace] in H. destruct (o_map_as_struct o); apply bind_ok in H as (t0 & _ & H); destruct t0; try discriminate; apply bind_ok in H as (x & _ & H); injection H as <-; reflexivity.
   - rewrite trace_struct_eq in H. apply bind_ok in H as (t0 & _ & H). destruct t0; try discriminate. apply bind_ok in H as (x & _ & H). injection H as <-. reflexivity.
+  - erewrite trace_variant_eq in H by reflexivity. apply (ustep_complex o d _ _ _ H).
+  - erewrite trace_variant_eq in H by reflexivity. apply (ustep_complex o d _ _ _ H).
+  - erewrite trace_variant_eq in H by reflexivity. apply (ustep_complex o d _ _ _ H).
+  - erewrite trace_variant_eq in H by reflexivity. apply (ustep_complex o d _ _ _ H).
 Qed.
 
 Lemma ts_cons o d v r t : trace_seq' o d (v :: r) (Ok t) = trace_seq' o d r (trace o d v t).
@@ -311,8 +338,26 @@ Section Order.
       (exists ls, cores vs = map VSeq ls /\ Hom n' (concat ls)) \/
       (exists SS, cores vs = map VStruct SS /\ Forall (fun fa => NoDup (map fst fa)) SS /\ forall k, Hom n' (vals k SS)) \/
       (o_map_as_struct o = true /\
-       exists SS, cores vs = map (fun fa => VMap (strkeys fa)) SS /\ Forall (fun fa => NoDup (map fst fa)) SS /\ forall k, Hom n' (vals k SS))
+       exists SS, cores vs = map (fun fa => VMap (strkeys fa)) SS /\ Forall (fun fa => NoDup (map fst fa)) SS /\ forall k, Hom n' (vals k SS)) \/
+      (o_map_as_struct o = false /\ exists kvss, cores vs = map VMap kvss /\ Hom n' (mkeys kvss) /\ Hom n' (mvals kvss)) \/
+      (exists ls, (cores vs = map VTuple ls \/ cores vs = map VTupleStruct ls) /\ forall i, Hom n' (col i ls)) \/
+      (Forall (fun c => vpl c <> None) (cores vs) /\ forall i, Hom n' (map snd (wsel i (pls (cores vs)))))
     end.
+
+  Lemma fold_max_perm l l' : Permutation l l' -> fold_right Nat.max 0 l = fold_right Nat.max 0 l'.
+  Proof. induction 1; cbn [fold_right]; lia. Qed.
+  Lemma maxlen_perm ls ls' : Permutation ls ls' -> maxlen ls = maxlen ls'.
+  Proof. intros H. unfold maxlen. apply fold_max_perm, Permutation_map, H. Qed.
+  Lemma ulen_perm ws ws' : Permutation ws ws' -> ulen ws = ulen ws'.
+  Proof. intros H. unfold ulen. apply fold_max_perm, Permutation_map, H. Qed.
+  Lemma col_perm i ls ls' : Permutation ls ls' -> Permutation (col i ls) (col i ls').
+  Proof. intros H. unfold col. apply Permutation_flat_map, H. Qed.
+  Lemma wsel_perm i ws ws' : Permutation ws ws' -> Permutation (wsel i ws) (wsel i ws').
+  Proof. intros H. unfold wsel. apply Permutation_flat_map, H. Qed.
+  Lemma pls_perm cs cs' : Permutation cs cs' -> Permutation (pls cs) (pls cs').
+  Proof. intros H. unfold pls. apply Permutation_flat_map, H. Qed.
+  Lemma variants_containers cs : Forall (fun c => vpl c <> None) cs -> Forall (fun c => is_container c = true) cs.
+  Proof. apply Forall_impl. intros c H. destruct c; try reflexivity; cbn [vpl] in H; congruence. Qed.
 
   Lemma existsb_perm {A} (f : A -> bool) l l' : Permutation l l' -> existsb f l = existsb f l'.
   Proof. induction 1; cbn [existsb]; try congruence. destruct (f x), (f y); reflexivity. Qed.
@@ -365,7 +410,7 @@ Section Order.
     induction n as [|n IH]; intros d vs vs' t t' Hh Hp H1 H2.
     - destruct Hh as [(l & Hl)|[]]. apply (leaf_case d vs vs' l t t' Hl Hp H1 H2).
     - pose proof (cores_perm vs vs' Hp) as Hcp. pose proof (existsb_perm nullish vs vs' Hp) as Hnp.
-      destruct Hh as [(l & Hl)|[(ls & Hc & Hh)|[(SS & Hc & Hnd & Hh)|(Hm & SS & Hc & Hnd & Hh)]]].
+      destruct Hh as [(l & Hl)|[(ls & Hc & Hh)|[(SS & Hc & Hnd & Hh)|[(Hm & SS & Hc & Hnd & Hh)|[(Hm & kvss & Hc & Hhk & Hhv)|[(ls & Hc & Hh)|(HF & Hh)]]]]]].
       + apply (leaf_case d vs vs' l t t' Hl Hp H1 H2).
       + (* sequences *)
         rewrite Hc in Hcp. destruct (Permutation_map_inv _ _ (Permutation_sym Hcp)) as (ls' & Hc' & Hpl).
@@ -425,5 +470,74 @@ Section Order.
            destruct P1 as (_ & T1 & R1 & ->). destruct P2 as (_ & T2 & R2 & ->).
            rewrite (missing_perm k _ _ Hpl). apply teq_mk.
            apply (IH _ (vals k (fa0 :: r0)) (vals k SS') T1 T2 (Hh k) (vals_perm k _ _ Hpl) R1 R2).
+      + (* maps traced as maps: a key position and a value position *)
+        rewrite Hc in Hcp. destruct (Permutation_map_inv _ _ (Permutation_sym Hcp)) as (kvss' & Hc' & Hpl).
+        destruct kvss as [|kv0 r0].
+        { destruct (cores_nil_atoms o vs Hc) as (l & Hl). apply (leaf_case d vs vs' l t t' Hl Hp H1 H2). }
+        assert (Hne' : kvss' <> []) by (intros ->; apply Permutation_sym, Permutation_nil in Hpl; discriminate).
+        rewrite (strip0 d vs) in H1 by (rewrite Hc; first [apply containers_map; reflexivity|discriminate]).
+        rewrite (strip0 d vs') in H2 by (rewrite Hc'; first [apply containers_map; reflexivity|destruct kvss'; [congruence|discriminate]]).
+        rewrite Hc in H1. rewrite Hc', <- Hnp in H2.
+        destruct (omk_ok_inv _ _ _ H1) as (u & E1 & ->). destruct (omk_ok_inv _ _ _ H2) as (u' & E2 & ->). apply teq_mk.
+        destruct (maps_projection o d (kv0 :: r0) false u Hm ltac:(discriminate) E1) as (kt & vt & -> & Hk & Hv).
+        destruct (maps_projection o d kvss' false u' Hm Hne' E2) as (kt' & vt' & -> & Hk' & Hv').
+        apply teq_map.
+        -- apply (IH (S d) (mkeys (kv0 :: r0)) (mkeys kvss') kt kt' Hhk (Permutation_flat_map _ Hpl) Hk Hk').
+        -- apply (IH (S d) (mvals (kv0 :: r0)) (mvals kvss') vt vt' Hhv (Permutation_flat_map _ Hpl) Hv Hv').
+      + (* tuples and tuple structs: one position per index *)
+        destruct Hc as [Hc|Hc].
+        { rewrite Hc in Hcp. destruct (Permutation_map_inv _ _ (Permutation_sym Hcp)) as (ls' & Hc' & Hpl).
+          destruct ls as [|l0 r0].
+          { destruct (cores_nil_atoms o vs Hc) as (l & Hl). apply (leaf_case d vs vs' l t t' Hl Hp H1 H2). }
+          assert (Hne' : ls' <> []) by (intros ->; apply Permutation_sym, Permutation_nil in Hpl; discriminate).
+          rewrite (strip0 d vs) in H1 by (rewrite Hc; first [apply containers_map; reflexivity|discriminate]).
+          rewrite (strip0 d vs') in H2 by (rewrite Hc'; first [apply containers_map; reflexivity|destruct ls'; [congruence|discriminate]]).
+          rewrite Hc in H1. rewrite Hc', <- Hnp in H2.
+          destruct (omk_ok_inv _ _ _ H1) as (u & E1 & ->). destruct (omk_ok_inv _ _ _ H2) as (u' & E2 & ->). apply teq_mk.
+          destruct (tuple_projection o d (l0 :: r0) false u ltac:(discriminate) E1) as (F & -> & Hlen & Hcol).
+          destruct (tuple_projection o d ls' false u' Hne' E2) as (F' & -> & Hlen' & Hcol').
+          apply teq_tuple; [rewrite Hlen, Hlen'; apply maxlen_perm, Hpl|].
+          intros i. apply (IH (S d) (col i (l0 :: r0)) (col i ls') _ _ (Hh i) (col_perm i _ _ Hpl) (Hcol i) (Hcol' i)). }
+        { rewrite Hc in Hcp. destruct (Permutation_map_inv _ _ (Permutation_sym Hcp)) as (ls' & Hc' & Hpl).
+          destruct ls as [|l0 r0].
+          { destruct (cores_nil_atoms o vs Hc) as (l & Hl). apply (leaf_case d vs vs' l t t' Hl Hp H1 H2). }
+          assert (Hne' : ls' <> []) by (intros ->; apply Permutation_sym, Permutation_nil in Hpl; discriminate).
+          rewrite (strip0 d vs) in H1 by (rewrite Hc; first [apply containers_map; reflexivity|discriminate]).
+          rewrite (strip0 d vs') in H2 by (rewrite Hc'; first [apply containers_map; reflexivity|destruct ls'; [congruence|discriminate]]).
+          rewrite Hc in H1. rewrite Hc', <- Hnp in H2. rewrite tuple_structs in H1, H2.
+          destruct (omk_ok_inv _ _ _ H1) as (u & E1 & ->). destruct (omk_ok_inv _ _ _ H2) as (u' & E2 & ->). apply teq_mk.
+          destruct (tuple_projection o d (l0 :: r0) false u ltac:(discriminate) E1) as (F & -> & Hlen & Hcol).
+          destruct (tuple_projection o d ls' false u' Hne' E2) as (F' & -> & Hlen' & Hcol').
+          apply teq_tuple; [rewrite Hlen, Hlen'; apply maxlen_perm, Hpl|].
+          intros i. apply (IH (S d) (col i (l0 :: r0)) (col i ls') _ _ (Hh i) (col_perm i _ _ Hpl) (Hcol i) (Hcol' i)). }
+      + (* enum variants: one position per variant *)
+        destruct (cores vs) as [|c0 r0] eqn:Hc.
+        { destruct (cores_nil_atoms o vs Hc) as (l & Hl). apply (leaf_case d vs vs' l t t' Hl Hp H1 H2). }
+        assert (HF' : Forall (fun c => vpl c <> None) (cores vs')) by (apply (Permutation_Forall Hcp HF)).
+        assert (Hne' : cores vs' <> []) by (intros E; rewrite E in Hcp; apply Permutation_sym, Permutation_nil in Hcp; discriminate).
+        rewrite (strip0 d vs) in H1 by (rewrite Hc; first [exact (variants_containers _ HF)|discriminate]).
+        rewrite (strip0 d vs') in H2 by first [exact (variants_containers _ HF')|exact Hne'].
+        rewrite Hc in H1. rewrite <- Hnp in H2.
+        destruct (omk_ok_inv _ _ _ H1) as (u & E1 & ->). destruct (omk_ok_inv _ _ _ H2) as (u' & E2 & ->). apply teq_mk.
+        destruct (union_projection o d (c0 :: r0) false u ltac:(discriminate) HF E1) as (V & -> & (_ & Hlen & Hsel)).
+        destruct (union_projection o d (cores vs') false u' Hne' HF' E2) as (V' & -> & (_ & Hlen' & Hsel')).
+        pose proof (pls_perm _ _ Hcp) as Hpp.
+        assert (Hnames : forall i nm T nm' T', get_variant V i = Some (nm, T) -> get_variant V' i = Some (nm', T') -> nm = nm').
+        { intros i nm T nm' T' G1 G2. specialize (Hsel i). specialize (Hsel' i). rewrite G1 in Hsel. rewrite G2 in Hsel'.
+          destruct Hsel as (Hne1 & Hall & _). destruct Hsel' as (_ & Hall' & _). pose proof (wsel_perm i _ _ Hpp) as Hw.
+          destruct (wsel i (pls (c0 :: r0))) as [|e r] eqn:Ee; [congruence|].
+          pose proof (Forall_inv Hall) as N1. cbn beta in N1. rewrite Forall_forall in Hall'.
+          specialize (Hall' e (Permutation_in _ Hw (or_introl eq_refl))). congruence. }
+        apply teq_union.
+        -- rewrite Hlen, Hlen'. apply ulen_perm, Hpp.
+        -- intros i. specialize (Hsel i). specialize (Hsel' i). pose proof (wsel_perm i _ _ Hpp) as Hw.
+           destruct (get_variant V i) as [[nm T]|], (get_variant V' i) as [[nm' T']|]; split; intros Hx; try discriminate; try reflexivity.
+           ++ destruct Hsel as (Hne1 & _). rewrite Hsel' in Hw. apply Permutation_sym, Permutation_nil in Hw. contradiction.
+           ++ destruct Hsel' as (Hne1 & _). rewrite Hsel in Hw. apply Permutation_nil in Hw. contradiction.
+        -- exact Hnames.
+        -- intros i nm T nm' T' G1 G2. pose proof (Hnames i nm T nm' T' G1 G2) as <-.
+           specialize (Hsel i). specialize (Hsel' i). rewrite G1 in Hsel. rewrite G2 in Hsel'.
+           destruct Hsel as (_ & _ & R1). destruct Hsel' as (_ & _ & R2).
+           apply (IH _ _ _ T T' (Hh i) (Permutation_map snd (wsel_perm i _ _ Hpp)) R1 R2).
   Qed.
 End Order.
